@@ -17,10 +17,23 @@ Theorem C02_monitor_accepts : forall c, valid c -> monitor c (run_transfer_case 
 Proof. exact monitor_accepts. Qed.
 Print Assumptions C02_monitor_accepts.
 
-(* every time stamp of the transfer lies within packets x (1 + max_retries) x timeout *)
+(* every time stamp of the transfer lies within packets x (1 + max_retries) x (timeout + proc),
+   where proc >= 0 is the time the server needs to take one datagram off the socket (case field
+   t_proc; the statement of the property is the idealisation proc = 0).  The bound holds for EVERY
+   script: no stream of duplicate, stale, foreign or malformed datagrams, however dense, keeps a
+   try open beyond its deadline plus the handling of the one datagram taken before it. *)
 Theorem C02_terminates_in_time : forall c, valid c -> within_time c (run_transfer_case c) = true.
 Proof. exact TimeProofs.transfer_within_time. Qed.
 Print Assumptions C02_terminates_in_time.
+
+(* one try, whatever arrives and however much is queued: it is over at the latest `proc` after
+   its deadline (or at once when it is entered after the deadline) *)
+Theorem C02_deadline_not_postponed : forall c w evs now deadline o n' e' l,
+  (0 <= proc c)%Z -> v c = current ->
+  await c w now deadline evs = (o, n', e', l) ->
+  (now <= n' <= Z.max now (deadline + proc c))%Z.
+Proof. intros c w evs now dl o n' e' l Hp Hv H. exact (proj1 (await_times c w Hp Hv evs now dl o n' e' l H)). Qed.
+Print Assumptions C02_deadline_not_postponed.
 
 Theorem C02_holds : forall c, valid c -> holds c (run_transfer_case c) = [].
 Proof.
@@ -35,9 +48,26 @@ Definition d1_case : tcase :=
   {| t_content := [1; 2; 3]%N; t_chunks := []; t_netascii := false; t_options := [(lit "blksize", lit "8")];
      t_limits := {| max_bs := 65464; max_tmo := 30; default_tmo := 2 |}; t_retries := 1; t_wrap := Some 0%N;
      t_kind := KNoFileno; t_events := [];
-     t_v := {| retry_fallthrough := true; errcode_raises := false |}; t_nv := ncurrent; t_na_always_skip := false |}.
+     t_proc := 0; t_v := {| retry_fallthrough := true; errcode_raises := false; late_recv := false |}; t_nv := ncurrent; t_na_always_skip := false |}.
 Theorem C02_refuted_D1_retry_fallthrough : holds d1_case (run_transfer_case d1_case) <> [].
 Proof. vm_compute. discriminate. Qed.
+
+(* the behaviour before the repair of D20: when no time was left in a try the server received
+   once more with a 1 ms time-out, so a burst of ignored datagrams (here 3000 stale ACKs queued at
+   time 0, each costing one tick to handle) kept the single try of a one-block transfer open until
+   the queue was empty - tick 3001 instead of 1024: no retransmission, no end *)
+Definition d20_case (late : bool) : tcase :=
+  {| t_content := []; t_chunks := []; t_netascii := false; t_options := [];
+     t_limits := {| max_bs := 65464; max_tmo := 30; default_tmo := 1 |}; t_retries := 0; t_wrap := Some 0%N;
+     t_kind := KNoFileno; t_events := repeat (Recv 0 client [0; 4; 0; 7]%N) 3000;
+     t_proc := 1; t_v := {| retry_fallthrough := false; errcode_raises := false; late_recv := late |};
+     t_nv := ncurrent; t_na_always_skip := false |}.
+Theorem C02_refuted_D20_flood :
+  holds (d20_case true) (run_transfer_case (d20_case true)) <> [] /\
+  last_time (run_transfer_case (d20_case true)) 0 = 3001%Z /\
+  holds (d20_case false) (run_transfer_case (d20_case false)) = [] /\
+  last_time (run_transfer_case (d20_case false)) 0 = 1024%Z.
+Proof. vm_compute. repeat split; discriminate. Qed.
 
 Example C02_nonvacuous :
   valid (C01.Props.ex_case) /\ List.length (run_transfer_case C01.Props.ex_case) = 13%nat.
